@@ -199,6 +199,12 @@ class MapLaws(Harness):
         out["qi"] = gm.interp_genpos(qc, qp)
         out["d1p"] = gm.gdist1p(gm.vrnt_chrgrp, gm.vrnt_phypos)
         out["d2p"] = gm.gdist2p(gm.vrnt_chrgrp, gm.vrnt_phypos)
+        # windows of the sequential distances (array start/stop) and of the pairwise distances from physical positions
+        swins = sorted(set([(1 if n > 1 else 0, n), (0, max(1, n - 1)), (1 if n > 2 else 0, max(1, n - 1))]))
+        out["swins"] = swins
+        out["d1gw"] = [gm.gdist1g(gm.vrnt_chrgrp, gm.vrnt_genpos, ast=a, asp=b) for (a, b) in swins]
+        out["d1pw"] = [gm.gdist1p(gm.vrnt_chrgrp, gm.vrnt_phypos, ast=a, asp=b) for (a, b) in swins]
+        out["d2pw"] = [gm.gdist2p(gm.vrnt_chrgrp, gm.vrnt_phypos, rst=a, rsp=b, cst=c, csp=d) for (a, b, c, d) in wins]
         if cls == "standard":
             gm2 = gm.interp_gmap(gm.vrnt_chrgrp, gm.vrnt_phypos)
         else:
@@ -256,6 +262,26 @@ class MapLaws(Harness):
                 for j in range(d - c):
                     x, y = cell(w, i, j), cell(d2, a + i, c + j)
                     P.prove((x == y) if (isinstance(x, float) and isinstance(y, float)) else P.eq(x, y), "pairwise-window=block-of-the-full-matrix", detail="window %s cell (%d,%d)" % ((a, b, c, d), i, j))
+        for (a, b, c, d), w in zip(out["wins"], out["d2pw"]):
+            P.prove(tuple(w.shape) == (b - a, d - c), "pairwise-from-physical-window-shape", detail="%s for window %s" % (tuple(w.shape), (a, b, c, d)))
+            if tuple(w.shape) != (b - a, d - c):
+                continue
+            for i in range(b - a):
+                for j in range(d - c):
+                    x, y = cell(w, i, j), cell(d2, a + i, c + j)
+                    P.prove((x == y) if (isinstance(x, float) and isinstance(y, float)) else P.eq(x, y), "pairwise-from-physical-window=block-of-the-full-matrix", detail="window %s cell (%d,%d)" % ((a, b, c, d), i, j))
+        for which in ("d1gw", "d1pw"):
+            for (a, b), w in zip(out["swins"], out[which]):
+                lab = "sequential-window" + ("-from-physical" if which == "d1pw" else "")
+                P.prove(tuple(w.shape) == (b - a,), lab + "-shape", detail="%s for window %s" % (tuple(w.shape), (a, b)))
+                if tuple(w.shape) != (b - a,):
+                    continue
+                for k in range(b - a):
+                    x = cell(w, k)
+                    if k == 0 or (a + k) in st:
+                        P.prove(isinstance(x, float) and x == float("inf"), lab + ": infinite at the window start and at chromosome starts", detail="window %s cell %d = %r" % ((a, b), k, x))
+                    else:
+                        P.prove(P.eq(x, cell(d1, a + k)), lab + "=slice-of-the-full-array", detail="window %s cell %d" % ((a, b), k))
         # interpolation
         order = [int(k) for k in out["inter_order"]]
         res = list(cells(out["inter"]))
